@@ -63,7 +63,7 @@ If mustReturnInt is False and you don't want to allow the versions to be sorted,
                 mat = re.search(r"^([^\d]+)\d+$", c1[i])
                 if mat:
                     prefixi = mat.group(1)
-                    if re.search(r"^%s\d+$" % prefixi, c2[i]):
+                    if re.search(r"^%s\d+$" % re.escape(prefixi), c2[i]):
                         _c1i = int(c1[i][len(prefixi):])
                         _c2i = int(c2[i][len(prefixi):])
 
